@@ -1,4 +1,5 @@
 From Coq Require Extraction ExtrOcamlBasic.
-From GV_ring Require Import Model.
+From GV_ring Require Import Model RingRun.
 Extraction Language OCaml.
-Extraction "model.ml" run.
+(* the driver calls [run]; tools/build_domain.sh appends  let run = run2  (case kind 3 = the translated programs) *)
+Extraction "model.ml" run2.
